@@ -230,11 +230,13 @@ pub fn monitored_call(
     da.slice(dr.clone()).copy_from_slice(d0);
     sa.slice(sr.clone()).copy_from_slice(s0);
     let bv = if op == Op::FmaBin { Some(BinaryOctetVec::new(pack_bits(bits), len)) } else { None };
+    crashlog::note(crashlog::KERNEL, &[match isa { None => 0, Some(Isa::Avx512) => 1, Some(Isa::Avx2) => 2, Some(Isa::Ssse3) => 3, Some(Isa::Portable) => 4 }, OPS.iter().position(|&o| o == op).unwrap() as u64, len as u64, doff as u64, soff as u64, c as u64, content, seed]);
     let r = {
         let s: &[u8] = &sa.raw[sr.clone()];
         let d: &mut [u8] = &mut da.raw[dr.clone()];
         guarded(|| call(isa, op, d, s, bv.as_ref(), c))
     };
+    crashlog::clear();
     let sig = || format!("{prop} kernel {}/{} len={len} dest_off={doff} src_off={soff} scalar={c} content={}", isa_name(isa), op_name(op), content_name(content));
     let mut ok = true;
     if let Err(m) = r {
